@@ -218,6 +218,111 @@ def run_jobs(jobs, table):
     return traces
 
 
+def run_shared_instance(ctx, table, rng):
+    """thread-pool server: two connections make the daemon raise the very same exception object at the same time (an application
+    that keeps the failure of a job and raises it for everybody who asks).  Every line of the daemon's error-reply code is a
+    switch point.  Each caller must get the exception, complete, as if it were alone."""
+    import os
+    import Pyro5.api as P
+    from Pyro5 import config, errors, server, serializers
+    sfile = os.path.abspath(server.__file__)
+    zfile = os.path.abspath(serializers.__file__)
+
+    def tfilter(code):
+        f = os.path.abspath(code.co_filename)
+        return (f == sfile and code.co_name == "_sendExceptionResponse") or (f == zfile and code.co_name in ("class_to_dict", "dumps"))
+    out = []
+    sers = sorted(serializers.serializers)
+    for si, ser in enumerate(sers):
+        spec = {"cls": "ValueError", "args": ["kept", si], "attrs": {"code": si}, "unser": False}
+
+        def once(chooser, ser=ser, spec=spec):
+            config.SERVERTYPE = "thread"
+            config.THREADPOOL_SIZE = 4
+            config.THREADPOOL_SIZE_MIN = 1
+            config.COMMTIMEOUT = 0.0
+            config.COMPRESSION = False
+            recs = {}
+
+            def main():
+                sc = S.CUR
+                d = P.Daemon(host="127.0.0.1")
+                uri = d.register(make_target(table)(), "raiser")
+                drv = memnet.ServerDriver(d)
+                with P.Proxy(uri) as p0:
+                    p0._pyroSerializer = ser
+                    try:
+                        p0.keep_and_raise(spec)
+                    except ValueError:
+                        pass
+                done = [0]
+
+                def client(i):
+                    def body():
+                        tr = {"kind": "builtin", "carriable": True, "ck": "reraise", "ser": ser, "cls": "ValueError", "argshape": "str_int",
+                              "attrshape": "one_int", "outcome": "returned", "same_class": False, "args_equal": False, "attrs_equal": False,
+                              "has_traceback": False, "is_pyro_error": False, "names_class": False, "names_message": False, "next_ok": False,
+                              "tb_own": True}
+                        recs[i] = tr
+                        try:
+                            p = P.Proxy(uri)
+                            p._pyroSerializer = ser
+                            p._pyroBind()
+                            try:
+                                p.raise_kept_again()
+                            except (S.Hang, S.SchedAbort):
+                                raise
+                            except BaseException as x:     # noqa
+                                tr["outcome"] = "raised"
+                                tr["same_class"] = type(x) is ValueError
+                                tr["args_equal"] = same(list(x.args), list(mapped(ser, ("kept", si))))
+                                tr["attrs_equal"] = same({k: v for k, v in vars(x).items() if k != "_pyroTraceback"}, {"code": si})
+                                tb = getattr(x, "_pyroTraceback", None)
+                                tr["has_traceback"] = bool(tb) and all(isinstance(y, str) for y in tb)
+                                tr["tb_own"] = (not tr["has_traceback"]) or any("raise_kept_again" in line for line in tb)
+                                tr["is_pyro_error"] = isinstance(x, errors.PyroError)
+                                tr["names_class"] = "ValueError" in str(x)
+                                tr["names_message"] = "kept" in str(x)
+                                tr["caught"] = type(x).__name__ + ": " + str(x)[:80]
+                            try:
+                                tr["next_ok"] = p.ok(7) == 7
+                            except (S.Hang, S.SchedAbort):
+                                raise
+                            except Exception:
+                                tr["next_ok"] = False
+                            p._pyroRelease()
+                        except S.Hang:
+                            tr["outcome"] = "hang"
+                        finally:
+                            done[0] += 1
+                    return body
+                for i in (1, 2):
+                    sc.spawn("c%d" % i, client(i), trace=False)
+                try:
+                    sc.yield_point(lambda: done[0] == 2)
+                    sc.quiesce()
+                except S.Hang:
+                    for tr in recs.values():
+                        tr["outcome"] = "hang"
+                drv.shutdown()
+                d.close()
+            res, sc = memnet.run(main, chooser=chooser, trace_filter=tfilter, max_steps=200000)
+            if res.get("hang"):
+                for tr in recs.values():
+                    tr["outcome"] = "hang"
+            return [recs.get(1), recs.get(2)]
+        seen = set()
+        for ch, pair in S.explore(once, max_preemptions=2, limit=ctx.pick(40, 400), rng=rng, random_runs=ctx.pick(10, 100)):
+            for tr in pair:
+                if tr is None:
+                    raise util.MachineryError("a client of the shared-instance pass never started")
+                key = json.dumps(tr, sort_keys=True)
+                if key not in seen:
+                    seen.add(key)
+                    out.append(tr)
+    return out
+
+
 def run(ctx):
     memnet.install()
     from Pyro5 import serializers
@@ -288,6 +393,9 @@ def run(ctx):
                 jobs.append({"ser": ser, "ck": ck, "spec": {"cls": name, "args": ["x"], "big": 200000, "attrs": {}, "unser": False}, "kind": "oversize",
                              "carriable": True, "a": "huge", "t": "none", "raised_args": ["x"], "max_message_size": 65536})
     traces = run_jobs(jobs, table)
+    shared = run_shared_instance(ctx, table, rng)
+    ctx.extra["shared_instance_distinct_outcomes"] = len(shared)
+    traces += shared
     for j in jobs:
         ctx.count(json.dumps([j["spec"]["cls"], j["a"], j["t"], j["ck"], j["ser"]]))
     for i in (0, len(traces) // 2, len(traces) - 1):
